@@ -19,3 +19,157 @@ Definition mon_C18 (l : list enode) (obs : eres (list nat)) : bool :=
   | EErr _, EErr _ => true
   | _, _ => false
   end.
+
+(* ---------- monitors over the implementation's plan (ORDER + RMAP of a bound chain) ---------- *)
+From NJ Require Import Base Registry Classify Select Reorder Machine Spec Bind.
+
+(* what the implementation reported for one entry of its final working list *)
+Record oprov := mkOprov {
+  op_pid : nat; op_class : nat; op_group : nat; op_inc : bool;
+  op_down : list (nat * nat);     (* input type > source type *)
+  op_up : list (nat * nat);       (* received type > source type *)
+  op_bypass : list (nat * nat)    (* init return type > source type *)
+}.
+
+(* static facts about the providers of a case, by pid: from the model's classification *)
+Definition static_of (c : bcase) : list (nat * sprov) :=
+  match assemble c with
+  | Ok funcs => map (fun p => (p_pid p, p_s p)) funcs
+  | _ => []
+  end.
+
+Definition sflow (st : list (nat * sprov)) (pid : nat) (k : flowK) : list nat :=
+  match alookup pid st with Some s => flow_of (s_flows s) k | None => [] end.
+
+Fixpoint nth_o (n : nat) (l : list oprov) : option oprov :=
+  match l, n with [] , _ => None | x :: _, 0 => Some x | _ :: r, S n' => nth_o n' r end.
+
+Definition inc_at (l : list oprov) (i : nat) : bool := match nth_o i l with Some o => op_inc o | None => false end.
+
+(* positions strictly between a and b *)
+Definition between (a b : nat) : list nat := seq_from (S a) (b - a - 1).
+
+(* nearest included producer of type t' before position k is exactly position i *)
+Definition down_produces (st : list (nat * sprov)) (l : list oprov) (i : nat) (t' : nat) : bool :=
+  match nth_o i l with
+  | Some o => op_inc o && memb t' (sflow st (op_pid o) FOut)
+  | None => false
+  end.
+Definition nearest_down (st : list (nat * sprov)) (l : list oprov) (i k : nat) (t' : nat) : bool :=
+  (i <? k) && down_produces st l i t' && negb (existsb (fun j => down_produces st l j t') (between i k)).
+
+Definition up_returns (st : list (nat * sprov)) (l : list oprov) (i : nat) (t' : nat) : bool :=
+  match nth_o i l with
+  | Some o => op_inc o && memb t' (sflow st (op_pid o) FRet)
+  | None => false
+  end.
+(* the value of t' that k receives comes from the nearest returner below k *)
+Definition up_overwrites (st : list (nat * sprov)) (l : list oprov) (i : nat) (t' : nat) : bool :=
+  up_returns st l i t' && match nth_o i l with Some o => (op_class o =? 4) || (op_class o =? 5) | None => false end.
+(* fallible injectors write error only when they cut the chain: they never overwrite a value on its way up *)
+Definition nearest_up (st : list (nat * sprov)) (l : list oprov) (k i : nat) (t' : nat) : bool :=
+  (k <? i) && up_returns st l i t' && negb (existsb (fun j => up_overwrites st l j t') (between k i)).
+
+Definition is_auto_desired (te : tyenv) (s : sprov) : bool :=
+  match f_out (s_flows s) with
+  | Some outs => length (strip_unused te outs) =? 0
+  | None => false
+  end.
+
+Definition idxs (l : list oprov) : list nat := seq_from 0 (length l).
+
+(* position of the invoke entry: init's returns are read there *)
+Fixpoint find_pos (f : oprov -> bool) (l : list oprov) (i : nat) : option nat :=
+  match l with [] => None | x :: r => if f x then Some i else find_pos f r (S i) end.
+
+(* C03: an included provider that is not Required/Desired/auto-desired/clustered must have
+   something it produced actually received: it is the nearest producer of a type some included
+   consumer reads, or the nearest returner of a type some included provider above receives, or it
+   consumes (as nearest consumer) a value its producer marked MustConsume *)
+Definition justified (te : tyenv) (st : list (nat * sprov)) (l : list oprov) (i : nat) : bool :=
+  match nth_o i l with
+  | None => true
+  | Some o =>
+    let invPos := match find_pos (fun x => op_class x =? 9) l 0 with Some p => p | None => 0 end in
+    existsb (fun k => match nth_o k l with
+                      | Some c => op_inc c &&
+                                  (existsb (fun e : nat * nat => nearest_down st l i k (snd e)) (op_down c) ||
+                                   existsb (fun e : nat * nat => nearest_down st l i invPos (snd e)) (op_bypass c))
+                      | None => false end) (idxs l)
+    || existsb (fun k => match nth_o k l with
+                         | Some c => op_inc c && existsb (fun e : nat * nat => nearest_up st l k i (snd e)) (op_up c)
+                         | None => false end) (idxs l)
+    (* a fallible injector's error reaches the nearest receiver of error above it whenever it fails,
+       whatever other fallible injectors sit in between *)
+    || ((op_class o =? 1) &&
+        existsb (fun k => match nth_o k l with
+                          | Some c => op_inc c && existsb (fun e : nat * nat => snd e =? te_errorT te) (op_up c)
+                          | None => false end) (seq_from 0 i))
+    || existsb (fun e : nat * nat =>
+         existsb (fun j => nearest_down st l j i (snd e) &&
+                           match nth_o j l with
+                           | Some pj => match alookup (op_pid pj) st with
+                                        | Some sj => match s_mustConsume sj with Some mc => memb (snd e) mc | None => false end
+                                        | None => false end
+                           | None => false end) (idxs l)) (op_down o)
+  end.
+
+Definition required_ok (c : bcase) (l : list oprov) : bool :=
+  let st := static_of c in
+  forallb (fun o => match alookup (op_pid o) st with
+                    | Some s => if s_required s then op_inc o else true
+                    | None => true end) l.
+
+Definition justified_all (c : bcase) (l : list oprov) : bool :=
+  let te := bc_te c in
+  let st := static_of c in
+  forallb (fun i => match nth_o i l with
+                    | Some o =>
+                      if negb (op_inc o) then true else
+                      match alookup (op_pid o) st with
+                      | Some s =>
+                        if s_required s || d_desired (s_d s) || is_auto_desired te s || negb (d_cluster (s_d s) =? 0)
+                           || s_synthetic s
+                        then true else justified te st l i
+                      | None => true end
+                    | None => true end) (idxs l).
+
+(* C03 on the implementation's plan.  Known finding D6 (include.go never re-prunes after its trial
+   eliminations) makes the algorithm itself leave unjustified providers on some chains; the
+   justification clause is claimed on the chains where the faithful model's plan is justified. *)
+Definition mon_C03_plan (c : bcase) (model_plan impl_plan : list oprov) : bool :=
+  required_ok c impl_plan && (if justified_all c model_plan then justified_all c impl_plan else true).
+Definition mon_C03_plan_strict (c : bcase) (impl_plan : list oprov) : bool :=
+  required_ok c impl_plan && justified_all c impl_plan.
+
+(* C15: every type returned by an included final function, wrapper or (as error) fallible
+   injector is received by an included wrapper above it or by invoke, unless ConsumptionOptional;
+   no included wrapper overrides a type returned un-received below it unless announced *)
+Definition mon_C15_plan (c : bcase) (l : list oprov) : bool :=
+  let te := bc_te c in
+  let st := static_of c in
+  forallb (fun i => match nth_o i l with
+    | Some o =>
+      if negb (op_inc o) then true else
+      match alookup (op_pid o) st with
+      | Some s =>
+        let co := match s_consOpt s with Some x => x | None => [] end in
+        forallb (fun t =>
+            memb t co || (t =? te_unusedT te) ||
+            existsb (fun k => match nth_o k l with
+                              | Some r => op_inc r && existsb (fun e : nat * nat => snd e =? t) (op_up r)
+                              | None => false end) (seq_from 0 i))
+          (flow_of (s_flows s) FRet) &&
+        (* shadowing *)
+        forallb (fun t =>
+            memb t (flow_of (s_flows s) FRecv) ||
+            memb t (d_shadowingAllowed (s_d s)) ||
+            ((class_eqb (s_class s) ClFallible || class_eqb (s_class s) ClFallibleStatic) &&
+             ((t =? te_errorT te) || (t =? te_terminalT te))) ||
+            negb (existsb (fun j => match nth_o j l with
+                                    | Some q => op_inc q && memb t (sflow st (op_pid q) FRet)
+                                                && negb (memb t (sflow st (op_pid q) FRecv))
+                                    | None => false end) (seq_from (S i) (length l - S i))))
+          (flow_of (s_flows s) FRet)
+      | None => true end
+    | None => true end) (idxs l).
